@@ -25,6 +25,7 @@ def check(ctx):
     ctx.not_decided += [
         "that output and input parse to the same tree for every program (Python-mode spacing and the subprocess-line classifier are value-level; a command after `with ...:` on the same line is still spaced as Python)",
         "idempotence of formatting",
+        "which token starts a macro body (nested `g!(..)` inside a macro argument, `x[0]!(..)`, `$(echo! ..)` are reproduced as collapsed at run time: the recogniser keys on the token before `!`, a value-level decision), and positions in a source that starts with a byte-order mark",
     ]
     ctx.rule("R1", "token text is emitted verbatim: _render_token returns only tok.string, a source slice, the documented brace re-escape or the comment lstrip", floor=4)
     ctx.rule("R2", "no content-changing string operation is applied to the joined text in regions that can lie inside a token", floor=1)
